@@ -117,6 +117,13 @@ def unpack(chk):
     ifs = [s for s in lp.body if isinstance(s, ast.If)]
     hdr = [s for s in ifs if '255' in unparse(s.test) or '0xFF' in unparse(s.test).upper() or '0xff' in unparse(s.test)]
     if len(hdr) != 1:
+        # the record loop has a two-way header / particle choice whose test is not "first byte == 0xFF"
+        two = [s for s in ifs if s.orelse and any(isinstance(n, ast.Subscript) and isinstance(n.ctx, ast.Store) for b in s.orelse for n in ast.walk(b))]
+        if len(two) == 1:
+            chk.refuted('C15-R2', P9, '_unpack_pack9', 'header test reads byte 0 of the current record',
+                        f'header records are recognised by "{unparse(two[0].test)}": the format marks a cell header by its first byte 0xFF alone '
+                        '(the low nibble of the second byte is free: real files use 0xFF0), so headers would be decoded as particles and their cell state ignored', node=two[0])
+            return
         raise AnalysisError('_unpack_pack9: header test (first byte == 0xFF) not recognised')
     H = hdr[0]
     # which name is the expanded-short buffer?
